@@ -776,9 +776,22 @@ func CanonicalIsomorphAllocated(n, m int, neighbours [][]int, op *CanonicalOrder
 				//Do the same for the currentBest
 				//Heuristic 2
 				if count > 0 && !ints.HasPrefix(firstLeafPath, path[:len(path)-1]) && ints.HasPrefix(currentBestPath, path[:len(path)-1]) {
-					if currentBestOrbits[choiceElement] >= 0 {
-						skipDeage = true
-						continue jLoop
+					//The orbits of the current best are reset whenever a better leaf is found so we can't rely on the root of the orbit being explored later: it might already have been skipped using the previous orbits. Only skip the element if an element of its orbit has already been visited at this node.
+					{
+						binEnd := len(op.order)
+						for k := 0; k < len(op.binDividers); k++ {
+							if choicePosition < op.binDividers[k] {
+								binEnd = op.binDividers[k]
+								break
+							}
+						}
+						rep := currentBestOrbits.FindBuffered(choiceElement, space)
+						for k := choicePosition + 1; k < binEnd; k++ {
+							if currentBestOrbits.FindBuffered(op.order[k], space) == rep {
+								skipDeage = true
+								continue jLoop
+							}
+						}
 					}
 				}
 
